@@ -382,6 +382,40 @@ theorem announce_mem (pre : Predef) (mod : Module J V) (p : Param J V) (v : V) (
   · rename_i w hw; simp only [List.mem_singleton] at h; exact ⟨w, hw, h⟩
   · cases h
 
+/-- the datatype-oracle law C01–C03 establish for the real datatypes, stated for the parameters OF THIS NODE: a client
+datatype rebuilt from the datainfo of a parameter imports the export of every value that parameter's datatype produced.
+(Stated for all conceivable `DtOps` it could only be satisfied by a client that imports everything.) -/
+def ImportLaw (clientImports : J → J → Bool) (n : Node J V) : Prop :=
+  ∀ mod ∈ n, ∀ p, Acc.param p ∈ mod.accs → ∀ v, Validated p.dt v → clientImports p.dt.datainfo (p.dt.exportV v) = true
+
+/-- … and the law for acceptance: the client datatype accepts exactly the payloads the parameter's own datatype accepts -/
+def AcceptLaw (clientAccepts : J → J → Bool) (n : Node J V) : Prop :=
+  ∀ mod ∈ n, ∀ p, Acc.param p ∈ mod.accs → ∀ j prev, clientAccepts p.dt.datainfo j = true ↔ ∃ v, p.dt.accept j prev = .ok v
+
+/-- storing a cache entry does not touch any datatype: the law carries over -/
+theorem importLaw_setEntry (clientImports : J → J → Bool) (n : Node J V) (mod attr : String) (e : Entry V)
+    (h : ImportLaw clientImports n) : ImportLaw clientImports (setEntry n mod attr e) := by
+  intro m' hm' p' hp' v hv
+  rw [setEntry_eq_map] at hm'
+  obtain ⟨m0, hm0, rfl⟩ := List.mem_map.1 hm'
+  obtain ⟨a, ha, hx | hx⟩ := updMod_acc mod attr e m0 (.param p') hp'
+  · exact h m0 hm0 p' (hx ▸ ha) v hv
+  · cases a with
+    | command c => simp [Acc.setEntry] at hx
+    | param p0 =>
+      simp only [Acc.setEntry] at hx
+      by_cases hb : (p0.attr == attr) = true
+      · rw [if_pos hb] at hx; injection hx with hx; subst hx
+        exact h m0 hm0 p0 ha v hv
+      · rw [if_neg hb] at hx; injection hx with hx; subst hx
+        exact h m0 hm0 p' ha v hv
+
+theorem importLaw_step (pre : Predef) (env : Env V) (clientImports : J → J → Bool) (n : Node J V) (r : Request J V)
+    (h : ImportLaw clientImports n) : ImportLaw clientImports (step pre env n r).node := by
+  rcases step_node pre env n r with hn | ⟨mod, attr, e, hn⟩
+  · rw [hn]; exact h
+  · rw [hn]; exact importLaw_setEntry clientImports n mod attr e h
+
 /-- every value update a `change` emits is the export of a value validated by the datatype of the described
 parameter it is emitted for -/
 theorem change_emits_validated (pre : Predef) (env : Env V) (n : Node J V) (hwf : Node.WF pre n) (spec : Spec) (j : J)
@@ -418,15 +452,14 @@ theorem change_emits_validated (pre : Predef) (env : Env V) (n : Node J V) (hwf 
 datatypes: a client datatype rebuilt from the described datainfo imports the export of every validated value.
 Then every value update a `change` emits can be imported with the datainfo the report gives for that name. -/
 theorem emits_importable (pre : Predef) (env : Env V) (n : Node J V) (hwf : Node.WF pre n)
-    (clientImports : J → J → Bool)
-    (law : ∀ (dt : DtOps J V) (v : V), Validated dt v → clientImports dt.datainfo (dt.exportV v) = true)
+    (clientImports : J → J → Bool) (law : ImportLaw clientImports n)
     (spec : Spec) (j : J) (m w : String) (jv : J)
     (h : Msg.update m w jv ∈ (handleChange pre env n spec j).emits) :
     ∃ ad, findDesc (describe pre n) m w = some ad ∧ clientImports ad.datainfo jv = true := by
   obtain ⟨mod, p, w', v, hmem, hacc, hw, hm, hval⟩ := change_emits_validated pre env n hwf spec j _ h
   injection hm with h1 h2 h3
   subst h1; subst h2; subst h3
-  refine ⟨⟨w, .parameter, p.dt.datainfo, some p.readonly, p.constant.map p.dt.exportV, p.props, none⟩, ?_, law p.dt v hval⟩
+  refine ⟨⟨w, .parameter, p.dt.datainfo, some p.readonly, p.constant.map p.dt.exportV, p.props, none⟩, ?_, law mod hmem p hacc v hval⟩
   rw [findDesc_eq pre n hwf.names mod.name w, findModule_of_mem pre n hwf mod hmem]
   simp only
   have hexp : mod.exported = true := by
@@ -542,8 +575,7 @@ theorem describe_step (pre : Predef) (env : Env V) (n : Node J V) (r : Request J
 emitted at any point of any history — by a `change` or by a `read` — can be imported with the datainfo that the
 report (taken at any time: it is stable) gives for the name the update carries. -/
 theorem emits_importable_history (pre : Predef) (clientImports : J → J → Bool)
-    (law : ∀ (dt : DtOps J V) (v : V), Validated dt v → clientImports dt.datainfo (dt.exportV v) = true)
-    (n : Node J V) (hwf : Node.WF pre n) (h : List (Env V × Request J V))
+    (n : Node J V) (hwf : Node.WF pre n) (law : ImportLaw clientImports n) (h : List (Env V × Request J V))
     (o : Outcome J V) (ho : o ∈ run pre n h) (m w : String) (jv : J) (hm : Msg.update m w jv ∈ o.emits) :
     ∃ ad, findDesc (describe pre n) m w = some ad ∧ clientImports ad.datainfo jv = true := by
   induction h generalizing n with
@@ -554,7 +586,7 @@ theorem emits_importable_history (pre : Predef) (clientImports : J → J → Boo
     rcases ho with rfl | ho
     · obtain ⟨mod, p, v, hmem, hname, hacc, hw, hjv, hval⟩ := step_emits_validated pre env n hwf r m w jv hm
       subst hname; subst hjv
-      refine ⟨⟨w, .parameter, p.dt.datainfo, some p.readonly, p.constant.map p.dt.exportV, p.props, none⟩, ?_, law p.dt v hval⟩
+      refine ⟨⟨w, .parameter, p.dt.datainfo, some p.readonly, p.constant.map p.dt.exportV, p.props, none⟩, ?_, law mod hmem p hacc v hval⟩
       rw [findDesc_eq pre n hwf.names mod.name w, findModule_of_mem pre n hwf mod hmem]
       simp only
       have hexp : mod.exported = true := by
@@ -565,7 +597,7 @@ theorem emits_importable_history (pre : Predef) (clientImports : J → J → Boo
       have := find?_of_nodup_filterMap (wireName pre mod) mod.accs (hwf.wires mod hmem) (.param p) hacc w hw
       unfold findWire; rw [this]; simp only [Option.bind_some]
       exact describeAcc_param pre mod p w hw
-    · have := ih (step pre env n r).node (wf_step pre env n hwf r) ho
+    · have := ih (step pre env n r).node (wf_step pre env n hwf r) (importLaw_step pre env clientImports n r law) ho
       rw [describe_step] at this
       exact this
 
@@ -722,8 +754,7 @@ history preserves (`cache_valid`) — the value of every read reply (constant, c
 `read_` method, freshly read value) is importable with the datainfo the report gives for that name.  The snapshot a
 new subscriber gets consists of the same exported cache values. -/
 theorem read_reply_importable (pre : Predef) (env : Env V) (n : Node J V) (hwf : Node.WF pre n) (hc : CacheValid n)
-    (clientImports : J → J → Bool)
-    (law : ∀ (dt : DtOps J V) (v : V), Validated dt v → clientImports dt.datainfo (dt.exportV v) = true)
+    (clientImports : J → J → Bool) (law : ImportLaw clientImports n)
     (m a : String) (jv : J) (h : (handleRead pre env n (.full m a) false).reply = .read jv) :
     ∃ ad, findDesc (describe pre n) m a = some ad ∧ clientImports ad.datainfo jv = true := by
   unfold handleRead at h
@@ -760,20 +791,20 @@ theorem read_reply_importable (pre : Predef) (env : Env V) (n : Node J V) (hwf :
               exact ⟨v, h.symm, Or.inr (Or.inr ⟨_, hv⟩)⟩
         · injection h with h; exact ⟨_, h.symm, hcv.1⟩
     obtain ⟨v, rfl, hv⟩ := key
-    exact law p.dt v hv
+    exact law mod hex.1 p hex.2.2.2.1 v hv
 
 /-- **described_datainfo_equiv** (relative to the datatype oracle).  Assume the C03 law: the client datatype
 rebuilt from a datainfo accepts exactly the payloads the original datatype accepts.  Then the described datainfo of
 `(m, a)` accepts exactly the payloads the node's own parameter `m:a` accepts — because report and dispatcher use
 the same `Param`. -/
 theorem described_datainfo_equiv (pre : Predef) (n : Node J V) (hwf : Node.WF pre n)
-    (clientAccepts : J → J → Bool)
-    (law : ∀ (dt : DtOps J V) (j : J) (prev : Option V), clientAccepts dt.datainfo j = true ↔ ∃ v, dt.accept j prev = .ok v)
+    (clientAccepts : J → J → Bool) (law : AcceptLaw clientAccepts n)
     (m a : String) (ad : AccDesc J) (h : findDesc (describe pre n) m a = some ad) (hk : ad.kind = .parameter) (j : J) :
     ∃ mod p, lookupParam pre n m a = .ok (mod, p) ∧
       (clientAccepts ad.datainfo j = true ↔ ∃ v, p.dt.accept j (some p.entry.value) = .ok v) := by
   obtain ⟨mod, p, hl, _, hdi, _, _⟩ := described_is_dispatched pre n hwf m a ad h hk
-  exact ⟨mod, p, hl, by rw [hdi]; exact law p.dt j _⟩
+  have hex := exported_of_lookupParam pre n m a mod p hl
+  exact ⟨mod, p, hl, by rw [hdi]; exact law mod hex.1 p hex.2.2.2.1 j _⟩
 
 /-- table fact: `datainfo`, `readonly` and `description` are exported for every parameter whatever their value
 (`export='always'`), so every parameter entry of a report carries a readonly flag and a datainfo, as `describeAcc` says -/
@@ -1023,6 +1054,112 @@ theorem model_do_probe_ok [DecidableEq J] (pre : Predef) (env : Env V) (n : Node
         rw [hdo]; simp [Reply.isError]
       · intro ht
         exact (hyes ht).1
+
+/-! non-vacuity for the theorems relative to the datatype-oracle laws: a node whose parameter takes numbers up to 100
+(datainfo: the bound), and a client that rebuilds "numbers up to the bound" from the datainfo -/
+namespace Example3
+open Frappy.Props.C04.Example
+
+def upTo100 (v : Nat) : Except Node.Err Nat := if v ≤ 100 then .ok v else .error ⟨.rangeError, "too big"⟩
+
+def dt3 : DtOps Nat Nat where
+  accept := fun j _ => upTo100 j
+  revalidate := upTo100
+  convert := fun r => match r with | some v => upTo100 v | none => .error ⟨.wrongType, "None"⟩
+  exportV := fun v => v
+  datainfo := 100
+
+def p3 : Param Nat Nat :=
+  { attr := "p", exp := .auto, limitHead := none, isLimitsPair := false, readonly := false, constant := none, dt := dt3,
+    entry := ⟨1, none⟩, checks := [], hasRead := true, hasWrite := true, props := [] }
+def m3 : Module Nat Nat := { name := "m", exported := true, accs := [.param p3], props := [] }
+def node3 : Node Nat Nat := [m3]
+def env3 : Env Nat := { env with drv := fun _ => .value 42 }
+
+def client (datainfo j : Nat) : Bool := decide (j ≤ datainfo)
+
+theorem wf3 : Node.WF pre node3 := by
+  refine ⟨by unfold namesNodup; decide +kernel, ?_, ?_, ?_, ?_⟩
+  · intro x hx; simp only [node3, List.mem_singleton] at hx; subst hx; unfold Module.attrsNodup; decide +kernel
+  · intro x hx; simp only [node3, List.mem_singleton] at hx; subst hx; unfold Module.wiresNodup; decide +kernel
+  · intro x hx; simp only [node3, List.mem_singleton] at hx; subst hx
+    intro a ha k hk
+    simp only [m3, List.mem_singleton] at ha
+    subst ha; revert hk; revert k; decide +kernel
+  · intro x hx; simp only [node3, List.mem_singleton] at hx; subst hx
+    intro a ha p hp hc
+    simp only [m3, List.mem_singleton] at ha
+    subst ha; injection hp with hp; subst hp; simp [p3] at hc
+
+theorem upTo100_ok (x v : Nat) (h : upTo100 x = .ok v) : v ≤ 100 := by
+  unfold upTo100 at h; split at h
+  · injection h with h; omega
+  · cases h
+
+theorem validated3 (v : Nat) (h : Validated dt3 v) : v ≤ 100 := by
+  rcases h with ⟨j, _, h⟩ | ⟨x, h⟩ | ⟨r, h⟩
+  · exact upTo100_ok j v h
+  · exact upTo100_ok x v h
+  · cases r with
+    | none => cases h
+    | some x => exact upTo100_ok x v h
+
+theorem importLaw3 : ImportLaw client node3 := by
+  intro mod hmod p hp v hv
+  simp only [node3, List.mem_singleton] at hmod; subst hmod
+  simp only [m3, List.mem_singleton] at hp
+  injection hp with hp; subst hp
+  have := validated3 v hv
+  show decide (v ≤ 100) = true
+  simpa using this
+
+theorem acceptLaw3 : AcceptLaw client node3 := by
+  intro mod hmod p hp j prev
+  simp only [node3, List.mem_singleton] at hmod; subst hmod
+  simp only [m3, List.mem_singleton] at hp
+  injection hp with hp; subst hp
+  show decide (j ≤ 100) = true ↔ ∃ v, upTo100 j = .ok v
+  unfold upTo100
+  by_cases h : j ≤ 100 <;> simp [h]
+
+theorem cacheValid3 : CacheValid node3 := by
+  intro mod hmod p hp
+  simp only [node3, List.mem_singleton] at hmod; subst hmod
+  simp only [m3, List.mem_singleton] at hp
+  injection hp with hp; subst hp
+  exact ⟨Or.inl ⟨1, none, rfl⟩, fun c hc => by simp [p3] at hc⟩
+
+end Example3
+
+open Frappy.Props.C04.Example Example3 in
+/-- `emits_importable` / `emits_importable_history`: the update `change m:_p 20` emits is importable by the client -/
+example : (∃ ad, findDesc (describe pre node3) "m" "_p" = some ad ∧ client ad.datainfo 20 = true) ∧
+    (∃ ad, findDesc (describe pre node3) "m" "_p" = some ad ∧ client ad.datainfo 42 = true) :=
+  ⟨emits_importable pre env node3 wf3 client importLaw3 (.full "m" "_p") 20 "m" "_p" 20 (by decide +kernel),
+   emits_importable_history pre client node3 wf3 importLaw3
+     [(env, .change (.full "m" "_p") 20), (env3, .read (.full "m" "_p") false)]
+     (handleRead pre env3 (handleChange pre env node3 (.full "m" "_p") 20).node (.full "m" "_p") false)
+     (by simp [run, step]) "m" "_p" 42 (by decide +kernel)⟩
+
+open Frappy.Props.C04.Example Example3 in
+/-- `read_reply_importable`: the driver returns 42, the read reply carries 42, the client imports it -/
+example : ∃ ad, findDesc (describe pre node3) "m" "_p" = some ad ∧ client ad.datainfo 42 = true :=
+  read_reply_importable pre env3 node3 wf3 cacheValid3 client importLaw3 "m" "_p" 42 (by decide +kernel)
+
+open Frappy.Props.C04.Example Example3 in
+/-- `described_datainfo_equiv`: the described datainfo accepts 100 and rejects 101, as the node does -/
+example : ∀ j, ∃ mod p, lookupParam pre node3 "m" "_p" = .ok (mod, p) ∧
+    (client 100 j = true ↔ ∃ v, p.dt.accept j (some p.entry.value) = .ok v) := by
+  intro j
+  cases h : findDesc (describe pre node3) "m" "_p" with
+  | none => exact absurd h (by decide +kernel)
+  | some ad =>
+    have hk : ad.kind = .parameter ∧ ad.datainfo = 100 := by
+      have : (findDesc (describe pre node3) "m" "_p").map (fun ad => (ad.kind, ad.datainfo)) = some (.parameter, 100) := by
+        decide +kernel
+      rw [h] at this; simpa using this
+    have := described_datainfo_equiv pre node3 wf3 client acceptLaw3 "m" "_p" ad h hk.1 j
+    rw [hk.2] at this; exact this
 
 /-! non-vacuity for the command theorems: the example node plus a command `go` taking a number up to 5 -/
 namespace Example2
